@@ -36,15 +36,8 @@ Section Ref.
     | TList t' =>
         match v with
         | VList l =>
-            let r := (fix go (l : list value) (i : nat) : list json * list perr :=
-                        match l with
-                        | [] => ([], [])
-                        | x :: rest =>
-                            let a := eval_type eo t' ss x (p ++ [PIdx i]) in
-                            let b := go rest (Datatypes.S i) in
-                            (fst a :: fst b, snd a ++ snd b)
-                        end) l 0 in
-            (JArr (fst r), snd r)
+            let rs := map (fun it => eval_type eo t' ss (fst it) (snd it)) (index_items p l 0) in
+            (JArr (map fst rs), flat_map snd rs)
         | _ => (JArr [], [])
         end
     | TObject n =>
